@@ -453,6 +453,14 @@ def word_lane_rule(ctx, chk, G):
                 chk.undecided_("C04.R5", label, str(e))
                 continue
             mem = st.frames[0]["mem"]
+            if not mem.cells and mem.havoc is None and v is not None and not any(e.kind == "assert" and e.akind == "BoundsCheck" for e in I.events):
+                # the production touches no memory at all and only hands the address on inside its value (an operand-class
+                # nonterminal such as `pop_operand = "word" memory_addr => WordOperand::Mem(m)`): the access is made, and
+                # checked, in the production that consumes the value
+                deps_ = {a for a, _b in I.deep_deps(st, v)} if hasattr(I, "deep_deps") else set()
+                if any(any((ov_names.get(names[i], "m") + str(i)) == a for a in deps_) for i in word_ops + byte_ops):
+                    chk.ok("C04.R5", f"{label}:hands-address-on", "no memory access here; the address is part of the production's value", nontrivial=False)
+                    continue
             for i in word_ops + byte_ops:
                 base = ov_names.get(names[i], "m") + str(i)
                 want = {base} if i in byte_ops else {base, f"(({base} + 1) mod 2^20)"}
